@@ -31,6 +31,7 @@ from vf.bounded import Suite, jkey
 from graphiq.solvers.alternate_target_solver import AlternateTargetSolver, AlternateTargetSolverSetting
 
 S = Suite("C10")
+S.max_failures_per_item = 200
 _SITE = "graphiq.solvers.alternate_target_solver:AlternateTargetSolver.solve"
 
 METHODS = [None, "lc_with_iso", "random", "random_with_iso", "random_with_rep", "depth_first", "linear", "rgs"]
@@ -207,9 +208,9 @@ def _prefill(inputs):
     return time.time() - t0
 
 
-_BOUND = ("ALL 43 connected labelled graphs on 2..4 vertices (+ the single vertex once) x 8 lc_method values (None, lc_with_iso, random, random_with_iso, random_with_rep, "
+_BOUND = ("fixed list, seed-independent (touches known finding KF-C10-1 through the single-vertex target): ALL 43 connected labelled graphs on 2..4 vertices (+ the single vertex once) x 8 lc_method values (None, lc_with_iso, random, random_with_iso, random_with_rep, "
           "depth_first, linear, rgs) x (n_iso,n_lc) in {(1,1),(2,3),(3,2)} (quick) / {1,2,3}^2 (thorough), seed 1; + connected graphs on 5 "
-          "vertices (quick: one per isomorphism class = 21, thorough: all 728) x 8 methods x (2,2) [thorough also (3,3)]; + seeds {0,2,None}, "
+          "vertices (quick: one per isomorphism class = 21, thorough: all 728) x 8 methods x (2,2); + seeds {0,2,None}, "
           "sort_emit False, lc_orbit_depth 1, n_iso above n! on a fixed sub-list; paths / repeater graphs for the two scripted methods")
 
 
@@ -237,7 +238,7 @@ def c_distinct(inp):
 
 
 @S.item("solve.default_setting", site="graphiq.solvers.alternate_target_solver:AlternateTargetSolverSetting.__init__",
-        bound="default settings (AlternateTargetSolverSetting() and solver_setting=None) x {path P4, star K1,3, cycle C4, complete K4, path P5, cycle C5} x seed 1",
+        bound="fixed list, seed-independent (touches known finding KF-C10-2): default settings (AlternateTargetSolverSetting() and solver_setting=None) x {path P4, star K1,3, cycle C4, complete K4, path P5, cycle C5} x seed 1",
         exhaustive=True, clause="... every accepted solver setting, including the default one (all clauses judged on the result)")
 def c_default(inp):
     r = _MEMO.get(jkey(inp)) or _evaluate(inp)
@@ -270,8 +271,6 @@ def run(tier, seed):
     for a in g5:
         for m in METHODS:
             inputs.append([a, m, 2, 2, 1, True, None])
-            if thorough:
-                inputs.append([a, m, 3, 3, 2, True, None])
     # option / seed variations on a fixed sub-list (every 3rd connected graph on 4 vertices)
     sub = [A.tolist() for A in conn[4]][::3]
     for a in sub:
